@@ -81,7 +81,7 @@ fn run_once(c: &Case, parity: usize, st: &mut Stats, opts: &RunOpts) -> Outcome 
     let last = c.ops.last().copied().unwrap_or_default();
     let mut push = |prop: &'static str, oracle: &'static str, detail: String| {
         if !viols.iter().any(|v| v.prop == prop) {
-            viols.push(Violation { prop, oracle, detail, step: steps, op: last });
+            viols.push(Violation { prop, oracle, detail, step: steps, op: last, soft: false });
         }
     };
     for a in av {
